@@ -65,7 +65,7 @@ fn gen_history<F: PrimeField>(rng: &mut Rng, curve: Curve, missing: bool, with_b
                 let op = if chance(rng, 2, 3) { Op::Alloc(None) } else { Op::AllocMul(None) };
                 ops.push(op);
             }
-            17 | 18 if with_blocks && blocks < 3 => {
+            17 | 18 if with_blocks && blocks < 5 => {
                 blocks += 1;
                 ops.push(Op::Randomized(vec![]));
             }
